@@ -28,6 +28,9 @@ REQUIRED_CLASSES = ["nontrivial", "none", "meet", "slice", "defer", "equal_aspec
 QUICK_SHARDS = 4
 
 plot_utils = sut.load("plot_utils")
+OPTION_PROBES = [(plot_utils.vb_scale, ["v_b", "p_a_r", "doc_width", "doc_height"],
+                  ["0 0 100 50", "xMaxYMax slice", 200, 200])]
+
 
 ALIGNS = ["xMinYMin", "xMidYMin", "xMaxYMin", "xMinYMid", "xMidYMid", "xMaxYMid",
           "xMinYMax", "xMidYMax", "xMaxYMax"]
